@@ -52,6 +52,14 @@ def run(ctx):
     ctx.prove('props/C03.v')
     L.lockstep(ctx, [L.mon_c03])
     builtin_probe(ctx)
+    # the iterator's info-carrying built-in action sends through the channel inside the handler: the
+    # bound of a delivery composes with C08 (send completes in a bounded number of its own steps with
+    # every other channel operation paused anywhere) - its cone and its step monitors are part of C03
+    import ls_channel as LC
+    ctx.harness(['ls_channel'])
+    if ctx.translate(['channel']):
+        ctx.prove_dep('props/C08.v', 'a delivery runs Channel::send (WithRawSiginfo / WithOrigin exfiltration)')
+    LC.lockstep(ctx, [LC.mon_c08])
     ctx.coverage['rule'] = ('lock-step scenarios as C01 (a delivery arriving at every boundary of register/unregister/unregister_signal and of other deliveries); '
                             'monitors: operation kinds of delivery activities, no failed/blocked step, step count <= 10 + #actions, '
                             'allocator wrapper = 0 allocations/releases inside deliveries; plus one real dispatch with all built-in actions on full pipes')
